@@ -170,6 +170,26 @@ class Vec:
         return f"Vec{self.vals!r}"
 
 
+class OnceIter:
+    """One-shot iterator (itertools.combinations, generators ...): items are consumed as they are iterated."""
+
+    def __init__(self, items):
+        self.items = list(items)
+        self.pos = 0
+
+    def abs_next(self):
+        if self.pos >= len(self.items):
+            return False, None
+        v = self.items[self.pos]
+        self.pos += 1
+        return True, v
+
+    def abs_iter(self):
+        rest = self.items[self.pos:]
+        self.pos = len(self.items)
+        return rest
+
+
 class Obj:
     """Abstract object of a scenario: attributes and methods supplied by the rule."""
 
@@ -615,6 +635,8 @@ class Evaluator:
                 d = Lin.of(left) - Lin.of(right)
                 if not d.is_const():
                     r = self.sym_compare(Lin.of(left), op, Lin.of(right), n)
+                    if r is not True and r is not False:
+                        return r             # a constraint object built by the rule's hook
                     if not r:
                         return False
                     left = right
@@ -703,6 +725,8 @@ class Evaluator:
             if v is not None:
                 return v
         base = self.ev(n.value)
+        if not isinstance(base, Obj) and hasattr(base, "abs_getattr"):
+            return base.abs_getattr(n.attr, self, n)
         if isinstance(base, Obj):
             if hasattr(base, "abs_getattr"):
                 return base.abs_getattr(n.attr, self, n)
@@ -883,6 +907,9 @@ class Evaluator:
                 cur = self.env.get(target.id)
                 if cur is None and target.id not in self.env:
                     raise Unsupported(f"augmented assignment to unbound {target.id}", stmt)
+                if hasattr(cur, "abs_iadd") and op == "+=":
+                    cur.abs_iadd(value, self, stmt)
+                    return
                 binop = {"+=": ast.Add(), "-=": ast.Sub(), "*=": ast.Mult()}[op]
                 self.env[target.id] = _arith(binop, cur, value, stmt)
             return
@@ -1023,6 +1050,23 @@ class Evaluator:
             return
         if isinstance(st, ast.For):
             it = self.ev(st.iter)
+            if isinstance(it, OnceIter):
+                broke = False
+                while True:
+                    ok, v = it.abs_next()
+                    if not ok:
+                        break
+                    self.store(st.target, "=", v, st)
+                    try:
+                        self.block(st.body)
+                    except _Break:
+                        broke = True
+                        break
+                    except _Continue:
+                        continue
+                if not broke:
+                    self.block(st.orelse)
+                return
             if isinstance(it, (set, frozenset)):
                 it = sorted(it, key=repr)
             elif isinstance(it, dict):
@@ -1136,7 +1180,11 @@ class Evaluator:
             v = self.ev(node)
         except Unsupported:
             return None
-        return v if isinstance(v, Obj) else None
+        if isinstance(v, Obj):
+            return v
+        if hasattr(v, "abs_callmethod") and hasattr(v, "methods"):
+            return v
+        return None
 
     def _container_call(self, call: ast.Call):
         """Method call on a concrete python container held in the abstract environment."""
